@@ -1046,10 +1046,17 @@ def _emit_fn(asm, out, unit, kv, block, default_props):
     for ba, anchor, text in befores:
         if ba in ('before_stmt', 'after_stmt'):
             # anchor = the first words of a statement (robust against edits later in the statement)
+            # `…#2`: the second statement that starts like this (for statements that legitimately occur more than once)
+            occ = None
+            mo = re.match(r'^(.*)#(\d+)$', anchor, re.S)
+            if mo:
+                anchor, occ = mo.group(1), int(mo.group(2))
             pat = r'\s*'.join(re.escape(p) for p in re.findall(r'\w+|\S', anchor))
             ms = [m for m in re.finditer(pat, body)]
             mask_b = rsx.code_mask(body)
             ms = [m for m in ms if mask_b[m.start()]]
+            if occ is not None:
+                ms = [ms[occ - 1]] if 1 <= occ <= len(ms) else []
             if len(ms) != 1:
                 if isinstance(text, tuple):
                     raise ExtractError("anchor lost: %s: statement starting %r occurs %d times" % (fname, anchor, len(ms)))
